@@ -179,6 +179,70 @@ def _prepare_locked(repo, th, cache, done, base, changed, t0):
     return cache, info
 
 
+def _subst_ref_aliases(fn):
+    """`ObjectQueue<ObjectHeaderBase> & queue = m_readWriteQueue;  ObjectHeaderBase * const obj = ohb;` - a local reference bound to a member
+    of this, and a const pointer copy of a parameter the function never changes, are other names for the same thing: every use is replaced
+    by what it names (once, when the facts are loaded), so that all rules see `m_readWriteQueue.write(ohb)`"""
+    import copy
+    import re
+    body = fn.get('body')
+    if not isinstance(body, dict):
+        return
+
+    def designator(x):
+        x = strip_all_casts(x)
+        while isinstance(x, dict) and x.get('k') == 'Member' and x.get('dk') == 'field':
+            x = strip_all_casts(x.get('base'))
+        return isinstance(x, dict) and x.get('k') == 'This'
+
+    def modified(vid):
+        for n in walk(body):
+            if n.get('k') == 'Bin' and n.get('op') in ('=', '+=', '-=', '*=', '/=', '|=', '&=', '^=') and (strip_all_casts(n['lhs']) or {}).get('id') == vid:
+                return True
+            if n.get('k') == 'Un' and n.get('op') in ('++', '--', '&') and (strip_all_casts(n['sub']) or {}).get('id') == vid:
+                return True
+        return False
+
+    aliases = {}
+    for n in walk(body):
+        if n.get('k') != 'Decl':
+            continue
+        for v in n.get('vars', []):
+            t = (v.get('t') or '').rstrip()
+            init = v.get('init')
+            if init is None or v.get('static'):
+                continue
+            x = strip_all_casts(init)
+            if not isinstance(x, dict):
+                continue
+            if t.endswith('&') and not t.endswith('&&') and x.get('k') == 'Member' and designator(x):
+                aliases[v['id']] = x
+            elif re.search(r'\*\s*const$', t) and x.get('k') == 'Ref' and x.get('dk') == 'parm' and not modified(x.get('id')):
+                aliases[v['id']] = x
+    if not aliases:
+        return
+
+    def tr(n):
+        if isinstance(n, list):
+            return [tr(i) for i in n]
+        if not isinstance(n, dict):
+            return n
+        if n.get('k') == 'Ref' and n.get('id') in aliases:
+            c = copy.deepcopy(aliases[n['id']])
+            c['l'] = n.get('l', c.get('l'))
+            return c
+        if n.get('k') == 'Decl':
+            keep = [v for v in n.get('vars', []) if v.get('id') not in aliases]
+            if not keep:
+                return {'k': 'Compound', 'body': [], 'l': n.get('l')}
+            n = dict(n, vars=keep)
+        for k in list(n.keys()):
+            if isinstance(n[k], (dict, list)):
+                n[k] = tr(n[k])
+        return n
+    fn['body'] = tr(body)
+
+
 class Facts:
     """merged view over all units"""
 
@@ -204,6 +268,9 @@ class Facts:
                 lst = self.functions.setdefault(f['name'], [])
                 if not any(g['sig'] == f['sig'] and g['file'] == f['file'] and g['line'] == f['line'] for g in lst):
                     lst.append(f)
+        for lst in self.functions.values():
+            for f in lst:
+                _subst_ref_aliases(f)
         self.repo = info['repo']
         self._derived = None
 
